@@ -12,6 +12,7 @@ THEOREMS = [
     'Sourcer.C17_nested_sequences',
     'Sourcer.C17_nested_options',
     'Sourcer.C17_nested_failing_choices',
+    'Sourcer.C17_spilled_helper_same_outcome',
     'Sourcer.C07_memo_transparent',
     'Sourcer.C01_codegen_refines_peg',
 ]
@@ -163,11 +164,18 @@ def run(tier, seed, lean):
     summ = c08.summarize(res, 'wrapper depth against the model')
     violations += summ['violations']
     broken += summ['broken']
+    # bound names, parameters and class fields used inside helper functions: names-layer programs, deepened, real = xgen = xpeg
+    import envrun
+    from props import c05
+    njobs = names_layer_jobs(tier, seed)
+    ncov, nviol, nbroken = c05.summarise(envrun.run_jobs(njobs), njobs)
+    violations += nviol
+    broken += nbroken
     # rule recursion driven deep by the input
     deep_bad, deep_n, deep_samples = deep_recursion(tier)
     violations += deep_bad
     cov = {
-        'evaluations': evals + summ['coverage']['evaluations'] + deep_n,
+        'evaluations': evals + summ['coverage']['evaluations'] + deep_n + ncov['evaluations'],
         'distinct_nontrivial': len([j for j in jobs if j['want']]),
         'rule': ('inner expression {literal, regex, rule reference, class reference, template call, bound let name, inline Python mentioning a bound '
                  'name, repetition count from a bound name, parameter} x wrapper {[.], (.), (.)?, Fail()|., [(.)?], ""≫.} x nesting depth 1..120 '
@@ -179,8 +187,84 @@ def run(tier, seed, lean):
         'model_comparisons': summ['coverage']['evaluations'],
         'traces_validated_against_impl': summ['coverage']['evaluations'],
         'deep_recursion_cases': deep_n,
+        'names_layer_programs_deepened': ncov['programs'],
+        'names_layer_evaluations': ncov['evaluations'],
+        'names_layer_model_undefined': ncov['cases_where_model_is_undefined'],
     }
     return {'coverage': cov, 'violations': violations, 'broken': broken}
+
+
+def _has_let(e):
+    if not isinstance(e, tuple):
+        return False
+    if e[0] == 'let':
+        return True
+    return any(_has_let(x) or (isinstance(x, list) and any(_has_let(y) or (isinstance(y, tuple) and len(y) == 2 and _has_let(y[1])) for y in x))
+               for x in e[1:])
+
+
+def _wrap(e, k):
+    # `identity <| e`: the function is read first and `e` is compiled inside the block that follows it, so every layer
+    # is a level of nesting; the value stays what it was, so the inline Python of the program keeps seeing values of
+    # the types it was generated for
+    for i in range(k):
+        e = ('applyl', ('where', ('py', 1000, []), 11, []), e)       # the `where` (always true) keeps the generator from dropping the block
+    return e
+
+
+def deepen(e, k):
+    """the body of every innermost binder is wrapped in k transparent layers (`identity <| .`): the uses of the bound name end up in a
+    helper function, the binder stays outside"""
+    kind = e[0]
+    if kind in ('lit', 'cc', 'ref', 'py', 'pvar'):
+        return e
+    if kind in ('seq', 'choice'):
+        return (kind, [deepen(x, k) for x in e[1]])
+    if kind in ('star', 'opt'):
+        return (kind, deepen(e[1], k))
+    if kind == 'let':
+        body = deepen(e[3], k)
+        if not _has_let(e[3]):
+            body = _wrap(body, k)
+        return ('let', e[1], deepen(e[2], k), body)
+    if kind in ('where', 'apply', 'rep'):
+        return (kind, deepen(e[1], k), e[2], e[3])
+    if kind == 'applyl':
+        return (kind, deepen(e[1], k), deepen(e[2], k))
+    if kind == 'call':
+        return ('call', e[1], [(kw, deepen(a, k)) for kw, a in e[2]])
+    if kind == 'bseq':
+        items = [(n, deepen(x, k)) for n, x in e[3]]
+        if items and not _has_let(items[-1][1]):
+            items[-1] = (items[-1][0], _wrap(items[-1][1], k))       # the last member sees every field before it
+        return ('bseq', e[1], e[2], items)
+    raise ValueError(kind)
+
+
+def names_layer_jobs(tier, seed):
+    """programs of the names layer (C05/C06) with the scopes of their binders nested past the block budget"""
+    import envgen
+    from props import c05
+    rng = random.Random(seed * 7919 + 17)
+    base = [(fam, P) for fam, P in c05.hand_programs() if not fam.startswith(('shadow', 'lambda'))]
+    for i in range(40 if tier == 'quick' else 400):
+        g = envgen.Gen(random.Random(rng.randrange(1 << 30)), shadow=0.0, named=('envd' if i % 3 == 0 else None))
+        base.append((f'generated{i}', g.program(n_rules=rng.randrange(1, 3), n_templates=rng.randrange(0, 3), depth=rng.randrange(2, 4))))
+    jobs = []
+    hand_inputs = ['a!', 'b', 'bc', 'aab', 'abcab', '2,3', '3,2', '1,1', '2abc', '0', '3abc', 'aaa', 'aa', 'ab', 'ba', '(2)', '(2)a', '(a)', '']
+    for fam, P in base:
+        for k in ((18, 21) if fam.startswith('generated') else (17, 19, 20, 22, 41)):
+            Q = dict(P)
+            Q['rules'] = [(n, deepen(b, k)) for n, b in P['rules']]
+            # a template body without binders of its own is wrapped as a whole: its parameters cross into the helper
+            Q['templates'] = [(n, ps, deepen(b, k) if _has_let(b) or b[0] == 'bseq' else _wrap(b, k)) for n, ps, b in P['templates']]
+            if fam.startswith('generated'):
+                inputs = list(dict.fromkeys(envgen.inputs_from(P, random.Random(rng.randrange(1 << 30)), 8) + envgen.inputs_for(random.Random(rng.randrange(1 << 30)), 2)))
+            else:
+                inputs = hand_inputs
+                Q['named'] = 'envd' if k % 2 else None
+            jobs.append({'id': f'deep-{fam}-{k}', 'family': f'deep-{fam.rstrip("0123456789")}', 'program': Q, 'inputs': inputs, 'seed': seed, 'expand': False})
+    return jobs
 
 
 DEEP = [
